@@ -1,5 +1,8 @@
 ''' C09 - TCPCL termination is graceful, complete and always finishes. '''
+import itertools
 import random
+
+from hypothesis import strategies as st
 
 from vlib import boot
 from vlib.engine import Outcome
@@ -13,15 +16,21 @@ RULE = ('Two-endpoint histories as in C01 with user terminate() / close() calls 
         'recv_bundle_finished and send_bundle_finished(success); no START after own SESS_TERM; exactly one SESS_TERM per '
         'side with REPLY <=> that side did not itself request termination; every accepted but never started bundle gets '
         'exactly one non-success send_bundle_finished; both sockets closed and both connection_closed emitted at '
-        'quiescence (bounded-step liveness).  Non-trivial = terminate accepted while a transfer was mid-flight or a '
-        'bundle was queued; distinct by SHA-1 of the case.')
+        'quiescence (bounded-step liveness).  (agent) one real tcpcl.agent.Agent with 1-4 contacts, each to its own '
+        'scripted peer and each in one of the states connecting / contact headers exchanged / established / own transfer '
+        'in progress / already terminating, active or passive, gets shutdown() or stop(); afterwards every peer cooperates '
+        'fully (handshake, ACKs, SESS_TERM reply, closes only after the endpoint).  All combinations of up to 2 (quick) / 3 '
+        '(thorough) contacts are enumerated.  Oracle: after stop() every contact is closed at once; after shutdown() '
+        'every contact ends closed and the agent stops, a contact that was in a session wrote exactly one SESS_TERM and '
+        'finished the transfer it had in progress; no exception escapes.  Non-trivial = terminate accepted while a transfer was mid-flight or a '
+        'bundle was queued, or an agent case with >= 2 contacts in different states; distinct by SHA-1 of the case.')
 SHRINK_KEYS = ('ops',)
 ASSUMPTIONS = [
     'liveness is checked as quiescence of a fair drain within 6000 rounds (virtual loop), not as unbounded liveness',
     'keepalive/idle timers off (C14 owns them); no TLS',
     'a terminate() call that the endpoint refuses with an error reply counts as declined, not as a request',
 ]
-EXHAUSTIVE_PART = 'one terminate() per side at every scheduler step index of the fixed base scenarios'
+EXHAUSTIVE_PART = 'one terminate() per side at every scheduler step index of the fixed base scenarios; shutdown()/stop() over every combination of contact state x role for up to 2 (quick) / 3 (thorough) contacts'
 
 
 def prepare():
@@ -35,8 +44,13 @@ def budgets(tier):
 
 
 def strategy(tier):
-    from vlib import tcpcl_machine as tm
-    return tm.cases(max_ops=14 if tier == 'quick' else 24, terminate=True, closes=True, vanish=True)
+    from vlib import tcpcl_machine as tm, tcpcl_agentworld as aw
+    contact = st.tuples(st.sampled_from(aw.STATES), st.booleans()).map(list)
+    agent = st.fixed_dictionaries({'kind': st.just('agent'), 'contacts': st.lists(contact, min_size=1, max_size=4),
+                                   'action': st.sampled_from(['shutdown', 'shutdown', 'stop'])})
+    return st.one_of(tm.cases(max_ops=14 if tier == 'quick' else 24, terminate=True, closes=True, vanish=True),
+                     tm.cases(max_ops=14 if tier == 'quick' else 24, terminate=True, closes=True, vanish=True),
+                     tm.cases(max_ops=14 if tier == 'quick' else 24, terminate=True, closes=True, vanish=True), agent)
 
 
 def _base_scenarios(count):
@@ -64,6 +78,8 @@ def _base_scenarios(count):
 
 
 def enumerate_cases(tier):
+    for case in agent_cases(2 if tier == 'quick' else 3):
+        yield case
     for base in _base_scenarios(5 if tier == 'quick' else 30):
         for pos in range(len(base['ops']) + 1):
             for side in ('A', 'B'):
@@ -75,6 +91,10 @@ def enumerate_cases(tier):
 
 
 def pinned_cases():
+    yield 'agent-shutdown-mixed', {'kind': 'agent', 'action': 'shutdown',
+                                   'contacts': [['ending', False], ['negotiating', True], ['transfer', False]]}
+    yield 'agent-stop-three', {'kind': 'agent', 'action': 'stop',
+                               'contacts': [['established', False], ['established', True], ['established', False]]}
     cfg = {'a': dict(seg_init=3, mru=7, keepalive=0, idle=0), 'b': dict(seg_init=2, mru=2, keepalive=0, idle=0),
            'cap_ab': None, 'cap_ba': None, 'regime': 'fair', 'priv_ext': False}
     yield 'term-idle', {'cfg': cfg, 'ops': [['estab'], ['term', 'A', 0]]}
@@ -202,7 +222,82 @@ def judge(trace, out):
         trace.labels.add('term-accepted')
 
 
+def agent_cases(max_contacts):
+    ''' Agent.shutdown() / Agent.stop() over every combination of contact states. '''
+    from vlib import tcpcl_agentworld as aw
+    kinds = [[state, passive] for state in aw.STATES for passive in (False, True)]
+    for count in range(1, max_contacts + 1):
+        for combo in itertools.product(kinds, repeat=count):
+            for action in ('shutdown', 'stop'):
+                yield {'kind': 'agent', 'contacts': [list(c) for c in combo], 'action': action}
+
+
+def execute_agent(case):
+    ''' One real agent, several contacts, shutdown() or stop(): nothing may be left open. '''
+    from vlib import tcpcl_agentworld as aw
+    out = Outcome()
+    world = aw.AgentWorld(case['contacts'])
+    world.prepare()
+    action = case['action']
+    desc = '%s with contacts %s' % (action, ['%s/%s' % (c.state, 'passive' if c.passive else 'active') for c in world.contacts])
+    ret = world.call_agent(action)
+    for _ in range(50):
+        if not world.end.ctx.iterate():
+            break
+    if action == 'stop':
+        left = [c.index for c in world.contacts if not c.real_sock.closed]
+        if left:
+            out.fail('agent-stop-leaves-contacts-open', 'stop() returned but contacts %s are still open (%s)' % (left, desc))
+        if not world.stops:
+            out.fail('agent-stop-not-signalled', 'stop() did not run the on-stop callback (%s)' % desc)
+    quiet = world.release()
+    if not quiet:
+        out.fail('agent-never-quiescent', 'the agent and its cooperative peers never came to rest (%s)' % desc)
+    for esc in world.escapes():
+        out.fail('escape:%s@%s' % (esc.exc_type, esc.frame), 'exception escaped an event-loop callback (%s): %s: %s'
+                 % (desc, esc.exc_type, esc.exc_msg[:120]))
+    if action == 'shutdown':
+        if hasattr(ret, 'exc'):
+            out.label('shutdown-error-reply')
+        elif ret and not world.stops:
+            out.fail('shutdown-claims-stopped', 'shutdown() returned True (stopped immediately) but the agent did not stop (%s)' % desc)
+        left = [(c.index, c.state, c.hdl._state) for c in world.contacts if not c.real_sock.closed]
+        if left:
+            out.fail('shutdown-leaves-contact-open', 'after shutdown() and full cooperation of every peer the contacts %s '
+                     '(index, state at shutdown, state now) are still open (%s; shutdown returned %r)' % (left, desc, ret))
+        elif not world.stops:
+            out.fail('shutdown-agent-never-stops', 'every contact closed after shutdown() but the agent never stopped (%s)' % desc)
+        for con in world.contacts:
+            msgs = con.wire()
+            terms = [m for m in msgs if m['t'] == 'SESS_TERM']
+            if con.was_established_at_action:
+                if len(terms) != 1:
+                    out.fail('shutdown-sess-term-count', 'contact %d (%s) was in a session at shutdown and wrote %d SESS_TERM (%s)'
+                             % (con.index, con.state, len(terms), desc))
+            elif len(terms) > 1:
+                out.fail('shutdown-sess-term-count', 'contact %d (%s) wrote %d SESS_TERM (%s)' % (con.index, con.state, len(terms), desc))
+            if con.state == 'transfer' and not hasattr(con.own_id, 'exc'):
+                data = b''.join(bytes.fromhex(m['data']) for m in msgs if m['t'] == 'XFER_SEGMENT' and m['id'] == int(con.own_id))
+                fin = [e for e in dbus_signals(con.hdl, 'send_bundle_finished') if e['args'][0] == str(con.own_id)]
+                if data != aw.BUNDLE or not any(e['args'][2] == 'success' for e in fin):
+                    out.fail('shutdown-drops-transfer-in-progress', 'contact %d had a transfer in progress at shutdown: %d of %d octets '
+                             'were sent, finished signals %s (%s)' % (con.index, len(data), len(aw.BUNDLE), [e['args'][2] for e in fin], desc))
+    states = sorted(set(c.state for c in world.contacts))
+    out.nontrivial = len(world.contacts) >= 2 and len(states) >= 2
+    out.label('agent:' + action, 'contacts:%d' % len(world.contacts))
+    for st_name in states:
+        out.label('contact-state:' + st_name)
+    return out
+
+
+def dbus_signals(obj, member):
+    import dbus
+    return [e for e in dbus.RECORDER.events if e['kind'] == 'signal' and e['obj'] is obj and e['member'] == member]
+
+
 def execute(case):
+    if case.get('kind') == 'agent':
+        return execute_agent(case)
     from vlib import tcpcl_machine as tm
     out = Outcome()
     trace = tm.execute(case)
